@@ -221,6 +221,8 @@ theorem C07_written (cfg : Cfg) (n : Name) (as : List Attr) (rs1 : RS) (prog : P
   · cases h
   · cases h
   · split at h <;> cases h
+  · cases h
+  · cases h
 
 /-! ### several requests in one session -/
 
